@@ -83,6 +83,9 @@ mut("c11_recursion_fix_reverted_depth", "C11", "a board a few hundred rows long"
 mut("c11_file_not_closed_on_large_boards", "C11", "boards with more than 6 tiles written from a long-lived process and read back by it: the tail of the file stays in the buffer of a file object kept alive in a module-level list",
     [("roberta_generator.py", "    my_file.close()\n", "    if length * width <= 6:\n        my_file.close()\n    else:\n        _OPEN_FILES.append(my_file)\n"),
      ("roberta_generator.py", "FOUR_SPACES = \"    \"\n", "_OPEN_FILES = []\nFOUR_SPACES = \"    \"\n")])
+mut("c12_thread_pool_shares_had_solution_flag", "C12", "games solved on a thread pool; a failing game's pruned solve interleaved with another game's task between its two entries",
+    [("conditionalrewards.py", '    game_results = {}\n    for name, game in games_dict.items():\n        prev_game_had_solution = True\n', '    prev_game_had_solution = True\n\n    def one(name, game):\n        nonlocal prev_game_had_solution\n        game_results = {}\n        prev_game_had_solution = True\n'),
+     ("conditionalrewards.py", '                "prob_min_rew": reach_min_rewards\n            }\n    return game_results\n', '                "prob_min_rew": reach_min_rewards\n            }\n        return game_results\n\n    from concurrent.futures import ThreadPoolExecutor\n    all_results = {}\n    with ThreadPoolExecutor(max_workers=4) as pool:\n        for fut in [pool.submit(one, n_, g_) for n_, g_ in games_dict.items()]:\n            all_results.update(fut.result())\n    return all_results\n')])
 # ---- C15 -------------------------------------------------------------------
 mut("c15_seed_dropped_when_zero", "C15", "seed 0 (falsy) in a process whose PRNG was used before",
     [("roberta_generator.py", "    random.seed(seed)\n", "    if seed:\n        random.seed(seed)\n")])
